@@ -193,14 +193,18 @@ class WatchView:
         ticks = iter([101.5, 205.25, 309.125, 400.0, 500.0])
         timeutils.now = lambda: next(ticks)
         try:
+            def snap(o):
+                # containers are copied: an implementation may keep one and mutate it in place
+                return {k: (list(v) if isinstance(v, list) else dict(v) if isinstance(v, dict) else v)
+                        for k, v in _vars(o).items()}
             w = timeutils.StopWatch(duration=7.75)
-            v0 = _vars(w)
+            v0 = snap(w)
             w.start()
-            v1 = _vars(w)
+            v1 = snap(w)
             w.split()
-            v2 = _vars(w)
+            v2 = snap(w)
             w.stop()
-            v3 = _vars(w)
+            v3 = snap(w)
         finally:
             timeutils.now = saved
 
